@@ -79,15 +79,15 @@ func c18hRun(t *testing.T, p c18hPlan) (res vfResult) {
 		pc := w.goCmd(func() error {
 			switch p.Op {
 			case "deploy":
-				return r.DeployService(p.Svc, []string{"ta0:80", "ta1:80"}, so, to, ms(p.DeployMs), ms(p.DrainMs))
+				return vfDeploy(r, p.Svc, []string{"ta0:80", "ta1:80"}, so, to, ms(p.DeployMs), ms(p.DrainMs))
 			case "rollout-deploy":
-				return r.SetRolloutTargets(p.Svc, []string{"tr0:80"}, ms(p.DeployMs), ms(p.DrainMs))
+				return vfRolloutDeploy(r, p.Svc, []string{"tr0:80"}, ms(p.DeployMs), ms(p.DrainMs))
 			case "pause":
-				return r.PauseService(p.Svc, ms(p.DrainMs), ms(p.MaxPauseMs))
+				return vfPause(r, p.Svc, ms(p.DrainMs), ms(p.MaxPauseMs))
 			case "stop":
-				return r.StopService(p.Svc, ms(p.DrainMs), p.Msg)
+				return vfStop(r, p.Svc, ms(p.DrainMs), p.Msg)
 			case "rollout-set":
-				return r.SetRolloutSplit(p.Svc, p.Pct, []string{""})
+				return vfRolloutSet(r, p.Svc, p.Pct, []string{""})
 			}
 			return nil
 		})
@@ -137,7 +137,7 @@ func c18hRun(t *testing.T, p c18hPlan) (res vfResult) {
 				return
 			}
 		}
-		r.ListActiveServices()
+		vfList(r)
 		res.NonTrivial = len(m.Svcs) > 0
 		res.label("op:" + p.Op)
 	})
